@@ -361,6 +361,10 @@ class SecopClient(ProxyClient):
                 self._shutdown.clear()
             self.txq = queue.Queue(30)
             self.pending = queue.Queue(30)
+            # release callers still waiting for a reply on the previous connection
+            # (a concurrent disconnect might not yet have done it)
+            for _, event, _ in list(self.active_requests.values()):
+                event.set()
             self.active_requests.clear()
             self.cleanup.clear()
             if self.online:
